@@ -34,15 +34,33 @@ func newGoStructObject(value reflect.Value) *goStructObject {
 	}
 }
 
+// live reports whether the Go struct is still there: a bridged pointer FIELD
+// tracks the field slot, which Go or the script may set to nil later.
+func (o goStructObject) live() bool {
+	return reflect.Indirect(o.value).IsValid()
+}
+
 func (o goStructObject) getValue(name string) reflect.Value {
+	if !o.live() {
+		return reflect.Value{}
+	}
+
 	if idx := fieldIndexByName(reflect.Indirect(o.value).Type(), name); len(idx) > 0 {
-		return reflect.Indirect(o.value).FieldByIndex(idx)
+		// FieldByIndexErr: a field promoted through a nil embedded pointer does not exist (FieldByIndex panics).
+		field, err := reflect.Indirect(o.value).FieldByIndexErr(idx)
+		if err != nil {
+			return reflect.Value{}
+		}
+		return field
 	}
 
 	if validGoStructName(name) {
 		// Do not reveal hidden or unexported fields.
-		if field := reflect.Indirect(o.value).FieldByName(name); field.IsValid() {
-			return field
+		if sf, ok := reflect.Indirect(o.value).Type().FieldByName(name); ok {
+			if field, err := reflect.Indirect(o.value).FieldByIndexErr(sf.Index); err == nil {
+				return field
+			}
+			return reflect.Value{}
 		}
 
 		if method := o.value.MethodByName(name); method.IsValid() {
@@ -62,11 +80,33 @@ func (o goStructObject) method(name string) (reflect.Method, bool) { //nolint:un
 }
 
 func (o goStructObject) setValue(rt *runtime, name string, value Value) bool {
+	if !o.live() {
+		panic(rt.panicTypeError("cannot set %s: the Go pointer is nil", name))
+	}
+
 	if idx := fieldIndexByName(reflect.Indirect(o.value).Type(), name); len(idx) == 0 {
-		return false
+		// Names getValue resolves through its FieldByName fallback (json:"-"
+		// fields, fields promoted through an embedded pointer) are fields too:
+		// reads showed them, writes were dropped silently.
+		if !validGoStructName(name) {
+			return false
+		}
+		if _, ok := reflect.Indirect(o.value).Type().FieldByName(name); !ok {
+			if o.value.MethodByName(name).IsValid() {
+				panic(rt.panicTypeError("cannot assign to %s: it is a method of %s", name, o.value.Type()))
+			}
+			return false
+		}
 	}
 
 	fieldValue := o.getValue(name)
+	if !fieldValue.IsValid() {
+		panic(rt.panicTypeError("cannot set %s: embedded pointer is nil", name))
+	}
+	if !fieldValue.CanSet() {
+		// A struct bridged by value, or a copy read out of a slice or map.
+		panic(rt.panicTypeError("cannot set %s: the Go struct is not addressable", name))
+	}
 	converted, err := rt.convertCallParameter(value, fieldValue.Type())
 	if err != nil {
 		panic(rt.panicTypeError("Object.setValue convertCallParameter: %s", err))
@@ -95,6 +135,10 @@ func validGoStructName(name string) bool {
 
 func goStructEnumerate(obj *object, all bool, each func(string) bool) {
 	goObj := obj.value.(*goStructObject)
+	if !goObj.live() {
+		objectEnumerate(obj, all, each)
+		return
+	}
 
 	// Enumerate fields
 	for index := range reflect.Indirect(goObj.value).NumField() {
